@@ -2,7 +2,7 @@
 """append / refresh the "Round 3" section of seeded/MATRIX.md from work/round3*.log and the confirmation logs"""
 import re, json, glob, os
 res = {}
-for f in ['work/round3-first.log', 'work/round3.log']:
+for f in ['seeded/round3-results-first.log', 'seeded/round3-results.log']:
     if not os.path.exists(f): continue
     lines = open(f).read().splitlines()
     for i, l in enumerate(lines):
